@@ -9,4 +9,5 @@ let () =
   | _ :: "seq" :: _ -> D_seq.run ()
   | _ :: "hashtbl" :: _ -> D_hashtbl.run ()
   | _ :: "listtbl" :: _ -> D_listtbl.run ()
+  | _ :: "conf" :: _ -> D_conf.run ()
   | _ -> prerr_endline "usage: driver <area> < ops"; exit 2
